@@ -135,12 +135,17 @@ def analyse(info: LoopInfo, pure=None) -> list[Finding]:
             for t in (n.targets if isinstance(n, ast.Assign) else [n.target]):
                 if isinstance(t, ast.Name):
                     bindings.setdefault(t.id, []).append(n.value)
+    iterated: list[tuple[set[str], ast.expr]] = [(names_of(n.target), n.iter) for n in _stmts(body) if isinstance(n, (ast.For, ast.AsyncFor, ast.comprehension))]
     changed = True
     while changed:
         changed = False
         for name, vals in bindings.items():
             if name not in derived and any(names_of(val) & derived for val in vals):
                 derived.add(name)
+                changed = True
+        for targets, it in iterated:  # the elements of an inner loop over something derived
+            if not targets <= derived and names_of(it) & derived:
+                derived |= targets
                 changed = True
     # accumulators: containers that exist before the loop and are grown inside it
     grows: dict[str, list[tuple[ast.AST, ast.expr | None, bool]]] = {}  # container -> (node, key, bulk)
@@ -369,7 +374,7 @@ def analyse(info: LoopInfo, pure=None) -> list[Finding]:
                 key_parts = set(key_locals)
                 for kn in sorted(key_locals):
                     key_parts |= _components(body, owner, kn, bindings)
-                if key_parts - key_locals:
+                if True:
                     # values computed from the key's parts alone (helpers expanded in place: `node = parent`, re-bound on several
                     # paths) are determined by the key: the largest set of locals all of whose bindings read, of everything that
                     # depends on the element, only key parts and each other
